@@ -1,6 +1,7 @@
 // Replay harness for tulz::Thread (C20). Built with -O0 -fno-inline so that start() has its own stack
 // frame: after it returns the harness overwrites the dead stack region with pointers to trap
 // functions, so a stale read of the by-value callable parameter cannot succeed "by luck".
+#include <optional>
 #include <thread>
 
 #include <tulz/threading/Thread.h>
@@ -73,6 +74,7 @@ __attribute__((noinline)) void scribble(void *trap) {
 }
 
 int g_kind = 0, g_args = 0;
+int g_form = 0;   // 1: the constructor form Thread(callable, args...) instead of Thread() + start(...)
 int g_payload = 0;   // written by the callable of the "poll" scenario, read by the starter after isFinished() turned true
 
 void fn_payload() {
@@ -81,11 +83,20 @@ void fn_payload() {
 }
 
 template <class C>
-void start_with(tulz::Thread &t, C callable, int &a, int &b) {
+void start_with(std::optional<tulz::Thread> &ot, C callable, int &a, int &b) {
     ev("StartCall");
-    if (g_args == 0) t.start(callable);
-    else if (g_args == 1) t.start(callable, a);
-    else t.start(callable, a, b);
+    if (g_form == 1) {
+        if (g_args == 0) ot.emplace(callable);
+        else if (g_args == 1) ot.emplace(callable, a);
+        else ot.emplace(callable, a, b);
+    } else {
+        ot.emplace();
+        g_thread = &*ot;
+        if (g_args == 0) ot->start(callable);
+        else if (g_args == 1) ot->start(callable, a);
+        else ot->start(callable, a, b);
+    }
+    g_thread = &*ot;
     ev("StartRet");
 }
 
@@ -115,29 +126,44 @@ void scenario() {
         scenario_poll();
         return;
     }
-    tulz::Thread t;
-    g_thread = &t;
+    std::optional<tulz::Thread> ot;
     int a = 0, b = 0;
     vs::yield("begin");
     void *trap = g_args == 0 ? (void *) &trap0 : g_args == 1 ? (void *) &trap1 : (void *) &trap2;
     if (g_kind == 0) {
         ev("StartCall");
-        if (g_args == 0) t.start(&fn0);
-        else if (g_args == 1) t.start(&fn1, a);
-        else t.start(&fn2, a, b);
+        if (g_form == 1) {
+            if (g_args == 0) ot.emplace(&fn0);
+            else if (g_args == 1) ot.emplace(&fn1, a);
+            else ot.emplace(&fn2, a, b);
+        } else {
+            ot.emplace();
+            g_thread = &*ot;
+            if (g_args == 0) ot->start(&fn0);
+            else if (g_args == 1) ot->start(&fn1, a);
+            else ot->start(&fn2, a, b);
+        }
+        g_thread = &*ot;
         ev("StartRet");
     } else if (g_kind == 1) {
         Small s;
-        start_with(t, s, a, b);
+        start_with(ot, s, a, b);
     } else if (g_kind == 2) {
         Large l;
         memset(l.pad, 7, sizeof l.pad);
-        start_with(t, l, a, b);
+        start_with(ot, l, a, b);
     } else {
         ev("StartCall");
-        t.start(new R());
+        if (g_form == 1) ot.emplace(new R());
+        else {
+            ot.emplace();
+            g_thread = &*ot;
+            ot->start(new R());
+        }
+        g_thread = &*ot;
         ev("StartRet");
     }
+    tulz::Thread &t = *ot;
     scribble(trap);
     vs::yield("after");
     t.join();
@@ -184,6 +210,7 @@ public:
 void run_exec(const Execution &ex) {
     g_kind = (int) ex.cfg.num("kind", 0);
     g_args = (int) ex.cfg.num("args", 0);
+    g_form = (int) ex.cfg.num("form", 0);
     g_fin_logged = false;
     if (rd_atomic_yield) rd_atomic_yield((int) ex.cfg.num("ay", 0));
     if (rd_access_yield) rd_access_yield((int) ex.cfg.num("accy", 0), (unsigned) ex.cfg.num("seed", 1));
